@@ -364,27 +364,68 @@ def graph_paths(ctx, flavour, paths, inits, depth, label):
     return gkey, cover
 
 
+WIDE = ["a", "d", "d/a", "e", "e/a"]          # a second directory: renames / moves of directories with children
+
+
 def run(ctx):
     env.init()
     make_templates(ctx)
-    depth = 4 if ctx.quick else 5
+    inits = ["empty", "pop"]
     for fl in ("bzr", "git"):
         for w in ("WitnessRenameReported", "WitnessRejected", "WitnessKindChange"):
             if fl == "git" and w != "WitnessRejected":
                 continue          # git has no identities (no rename records) and an index entry never turns directory
-            tlc.check(ctx, "WorkingTree", cfg_text=cfg(fl, SMALL, ["empty", "pop"], 3, invariants=(w,), props=()),
+            tlc.check(ctx, "WorkingTree", cfg_text=cfg(fl, SMALL, inits, 3, invariants=(w,), props=()),
                       expect_violation=w, label="witness %s %s" % (w, fl), workers=4)
     jobs = []
-    plan = [("bzr", ["2a"] if ctx.quick else ["2a", "knit"], 500), ("git", ["git"], 300)]
-    for fl, fmts, nquick in plan:
-        gkey, cover = graph_paths(ctx, fl, SMALL, ["empty", "pop"], depth, "MC + graph %s" % fl)
-        if ctx.quick:
-            cover = ctx.rng.sample(cover, min(nquick, len(cover)))
-        for start, labels in cover:
-            for fmt in fmts:
-                jobs.append((fmt, gkey, SMALL, start, labels))
+
+    def plan(fl, fmts, paths, depth, sample=None, only_len=None):
+        gkey, cover = graph_paths(ctx, fl, paths, inits, depth, "MC + graph %s %d paths depth %d" % (fl, len(paths), depth))
+        if only_len:
+            cover = [p for p in cover if len(p[1]) >= only_len]
+        for fmt in fmts:
+            part = cover if sample is None or sample >= len(cover) else ctx.rng.sample(cover, sample)
+            jobs.extend((fmt, gkey, paths, start, labels) for start, labels in part)
+
+    if ctx.quick:
+        plan("bzr", ["2a"], SMALL, 4, 500)
+        plan("git", ["git"], SMALL, 4, 300)
+    else:
+        plan("bzr", ["2a"], SMALL, 4)                       # complete transition cover
+        plan("bzr", ["knit"], SMALL, 4, 3000)               # WorkingTree3
+        plan("git", ["git"], SMALL, 4)
+        plan("bzr", ["2a"], WIDE, 3)
+        plan("git", ["git"], WIDE, 3)
+        plan("bzr", ["2a"], SMALL, 5, 3000, only_len=5)     # sequences of 5 calls: seeded sample
+        plan("git", ["git"], SMALL, 5, 3000, only_len=5)
     core.fork_map(ctx, replay_paths, jobs)
     ctx.cov["exhaustive"] = not ctx.quick
-    ctx.rule("paths = transition cover of TLC's state graph of WorkingTree.tla (every edge = one call in one abstract "
-             "state reachable within %d calls from the empty or the committed tree; quick: seeded sample of the cover); "
-             "distinct non-trivial = (format, initial tree, call sequence with outcomes) with at least two calls" % depth)
+    ctx.rule("paths = transition cover of TLC's state graph of WorkingTree.tla: every edge = one call in one abstract state "
+             "reachable within 4 calls from the empty or the committed tree over {a, b, d/, d/a} (quick: seeded sample of "
+             "500 bzr + 300 git cover paths; thorough: the whole cover on 2a and git, 3000 on WorkingTree3, the whole cover "
+             "of depth 3 over {a, d/, d/a, e/, e/a}, and 3000 sampled 5-call paths per flavour); distinct non-trivial = "
+             "(format, initial tree, call sequence with outcomes) with at least two calls")
+
+
+def replay(ctx, rep):
+    """./check C09 --replay FILE: re-run the recorded call sequence on a fresh tree and print what the tree reports."""
+    env.init()
+    make_templates(ctx)
+    r = rep["replay"]
+    fmt, flavour = r["format"], FORMATS[r["format"]]
+    root = os.path.join(ctx.workdir, "t")
+    shutil.copytree(TEMPLATES[(fmt, r["init"])], root, symlinks=True)
+    wt = open_tree(root)
+    print("signature:", rep["signature"], "\n", rep["description"])
+    for call in r["calls"]:
+        name, args = call[0], call[1:-1]
+        try:
+            perform(wt, root, name, args)
+            out = "ok"
+        except Exception as e:      # noqa
+            out = "raised %s: %s" % (type(e).__name__, str(e)[:100])
+        if name == "Reopen":
+            wt = open_tree(root)
+        view, changes = project(wt, flavour)
+        print("%s(%s) -> %s\n   versioned: %s\n   changes: %s\n   disk: %s" % (
+            name, ", ".join(args), out, sorted(view.items()), sorted(changes), sorted(disk_of(root, UNIVERSE).items())))
